@@ -200,7 +200,40 @@ func cmdCheck(args []string) int {
 		}
 	}
 	var self *selfResult
+	var configs []string
 	if *tier == "thorough" && !*noEvidence && err == nil && *prop != "all" {
+		// other build configurations: the same rules on the files selected by
+		// GOOS=darwin and GOOS=windows (signal tables, terminal, init_windows.go)
+		have := map[string]bool{}
+		for _, o := range res.Obs {
+			if o.Status != rules.Discharged && !o.Control {
+				have[o.Rule+"|"+o.Key] = true
+			}
+		}
+		for _, goos := range []string{"darwin", "windows"} {
+			p2, err2 := core.Load(abs, overlay(abs), goos, "amd64")
+			if err2 != nil {
+				configs = append(configs, goos+"/amd64: cannot load: "+err2.Error())
+				continue
+			}
+			res2 := runRules(p2, *prop, *tier, known, *only)
+			extra := 0
+			for _, o := range res2.Violations {
+				if have[o.Rule+"|"+o.Key] {
+					continue
+				}
+				o.Why = "[GOOS=" + goos + "] " + o.Why
+				res.Violations = append(res.Violations, o)
+				extra++
+			}
+			nObl := 0
+			for _, o := range res2.Obs {
+				if !o.Control {
+					nObl++
+				}
+			}
+			configs = append(configs, fmt.Sprintf("%s/amd64: %d obligations, %d additional violation(s)", goos, nObl, extra))
+		}
 		self = runSelftest(*verif, abs, *prop, "", false)
 	}
 	wall := time.Since(start).Seconds()
@@ -237,7 +270,7 @@ func cmdCheck(args []string) int {
 		fmt.Printf("  %s %s %s @%s\n  %s\n", o.Status, o.Rule, o.Key, o.Pos, o.Why)
 	}
 	if !*noEvidence && *prop != "all" {
-		writeEvidence(*verif, *prop, *tier, seed, wall, res, self)
+		writeEvidence(*verif, *prop, *tier, seed, wall, res, self, configs)
 	}
 	nObl, nDis := 0, 0
 	for _, o := range res.Obs {
@@ -256,7 +289,7 @@ func cmdCheck(args []string) int {
 	return 0
 }
 
-func writeEvidence(verif, prop, tier string, seed int, wall float64, res *result, self *selfResult) {
+func writeEvidence(verif, prop, tier string, seed int, wall float64, res *result, self *selfResult, configs []string) {
 	nObl, nDis, cells := 0, 0, 0
 	distinct := map[string]bool{}
 	perRule := map[string]int{}
@@ -307,6 +340,7 @@ func writeEvidence(verif, prop, tier string, seed int, wall float64, res *result
 		"checker_cmd":             fmt.Sprintf("/verif/bin/csvqsa check --property %s --tier %s", prop, tier),
 		"trusted_base":            []string{"go/types, go/ssa, go/callgraph/vta of golang.org/x/tools v0.29.0", "go1.23 front end", "documented behaviour of go-file, go-text, ternary (outside /repo)"},
 	}
+	cov["build_configurations"] = append([]string{"linux/amd64 (primary)"}, configs...)
 	if self != nil {
 		cov["mutants_total"] = self.Total
 		cov["mutants_detected"] = self.Detected
